@@ -4,6 +4,7 @@ import RSV.Props.C04range
 import RSV.Props.C04gf16
 import RSV.Props.C05bitfield
 import RSV.Props.C05leoAll
+import RSV.Props.C05prune
 import RSV.Props.Consts
 /-!
 # C05 umbrella — Leopard Reconstruct
